@@ -40,3 +40,11 @@ type Unit struct {
 	// choices, and hands violations to the driver (confirm, shrink, report).
 	Exec func(forced map[string]int) *sim.Outcome
 }
+
+// Demonstrator is implemented by scenarios that carry fixed, tape-independent
+// demonstrations of recorded findings: each runs the specific failing input or
+// history against the real code and returns the violation it shows, or nil
+// when the tree no longer exhibits it.
+type Demonstrator interface {
+	Demos() map[string]func() *sim.Violation
+}
